@@ -1,22 +1,23 @@
 /-
   Props/C05BinaryStart.lean — stream grammar (C05) at the output of the binary start
-  (`Start<BinaryStartReceiver>`, src/operator/start/binary.rs + src/operator/start/mod.rs:213-311).
+  (`Start<BinaryStartReceiver>`, src/operator/start/binary.rs as of 6c83288 + 14727d5, composed with
+  src/operator/start/mod.rs:213-311).
 
-  Full-strength statement:
+  Proved at full strength for a cached LEFT side: `bstart_grammar` — for every `nL, nR ≥ 1` and every
+  history that respects the input contract `contractL` (see Props/C11.lean; any interleaving, any
+  receive timeouts) and has returned `Terminate`, the output is
+  `((item|ts|wm|flushBatch)* far)+ term` (`grammarOk`). For EVERY history (cached or not, contract or
+  not): `bstart_grammar_partial`, the `Terminate` clause (at most once, last, exactly when the run ended).
 
-    bstart_grammar : for every contract-respecting complete history (both sides send synchronised
-        iterations and terminate; with a cached side: one iteration on the cached side, K rounds on
-        the loop side), every parallelism and interleaving, `grammarOk (run … h).1`, i.e. the output
-        is `((item|ts|wm|flushBatch)* far)+ term`, and each side's End marker occurs exactly once per
-        iteration, before that iteration's `far`.
+  The protocol's own timeout `FlushBatch` is not part of these outputs (the harness stops pulling at it
+  and does not print it), so the remark of finding F11 (a timeout `FlushBatch` between the last
+  `FlushAndRestart` and `Terminate`, Props/C05 of the simple `Start`) neither shows up here nor is
+  excluded by this theorem; it is a property of `Start::next`, identical for both receivers.
 
-  It is FALSE for the unchanged code with a cached side (`bstart_grammar_counterexample`, F6;
-  `bstart_grammar_timeout_counterexample`, F6b): the cache is replayed between the last
-  `FlushAndRestart` and `Terminate`. Proved: the `Terminate` clause of the grammar for every history
-  (`bstart_grammar_partial`). Missing: the `FlushAndRestart` clause (every iteration's data is
-  followed by a `far` before `term`; needs the lock-step invariant between the receiver's and
-  `Start`'s `missing_flush_and_restart` counters) — checked by the oracle on every implementation
-  trace, and by `decide` on the instances below.
+  Still out of reach (not mechanised): the `FlushAndRestart` clause for a cached RIGHT side (mirror image
+  of the invariant, the model is not symmetric) and for the uncached binary start (needs its own
+  lock-step invariant between the two sides' `missing_flush_and_restart` counters and `Start`'s); both
+  are checked by the oracle on every implementation trace and by `decide` on the instances below.
 -/
 import NoirVerif.Lemmas.BinaryStart
 namespace Noir.BinaryStart
@@ -32,6 +33,16 @@ theorem bstart_grammar_partial (nL nR : Nat) (lc rc : Bool) (hn : nL + nR ≠ 0)
         ∧ ∃ pre, (run nL nR lc rc ops).1 = pre ++ [Elem.term] ∧ Elem.term ∉ pre) := by
   have := runFrom_term ops (init nL nR lc rc) 0 (by simpa [init, Noir.Start.init] using hn)
   simpa [run] using this
+
+/-- **C05 (binary start with a cached left side).** Every complete contract-respecting history yields a
+    well-formed stream: one or more iterations, each closed by `FlushAndRestart`, then `Terminate`. -/
+theorem bstart_grammar (nL nR : Nat) (ops : List (Op α))
+    (hc : contractL nL nR ops = true) (hd : (run nL nR true false ops).2 = .done) :
+    grammarOk (run nL nR true false ops).1 = true := by
+  obtain ⟨P, rs, cur, h1, h2, _, _, h3⟩ := run_shaped nL nR ops hc
+  rcases h3 with ⟨_, _, e3⟩ | ⟨e1, e2, _⟩
+  · exact absurd hd e3
+  · rw [e1]; exact grammarOk_rounds rs h1 e2
 
 /-- Former findings F6 / F6b (fixed by 6c83288 / 14727d5): the histories that used to put data between
     the last `FlushAndRestart` and `Terminate` now respect the grammar. -/
